@@ -194,7 +194,7 @@ theorem c20_addrule_sorted (xs : List Rule) (hx : ∀ v ∈ xs, v.OK) :
   foldl_addRule_ok xs hx [] trivial (by simp)
 
 /-- `Min(diff) ≤ Generate(id, diff) ≤ Max(diff)`, and none of the three panics, for every
-rule list sorted by period with positive parameters, every hash value and every `diff`. -/
+rule list sorted by period with positive parameters (each fitting a Go `int`: `Rule.OK`), every\nhash value and every `diff`.  (Before the repair of F14 `getRand` used `uint32(max)` and a\nparameter that is a multiple of 2^32 divided by zero: `Golib/Findings/C20Count.lean`.) -/
 theorem c20_count_bounds (rs : List Rule) (hs : Sorted 0 rs) (hok : ∀ v ∈ rs, v.OK)
     (hn : Nat) (diff : Int) :
     ∃ g mn mx, countGenerate rs hn diff = some g ∧ countMin rs diff = some mn ∧
